@@ -207,7 +207,10 @@ def model_case(sc, obs, facts, targets, unreadable=()):
             if ff["proc_err"]:
                 process[fk] = ["err", hx(ff["proc_err"])]
             else:
-                process[fk] = ["ok", hx(unb64(ff["processed"]))]
+                pk = hx(unb64(ff["processed"]))
+                process[fk] = ["ok", pk]
+                ppe = ff.get("proc_parse_err", "")
+                parses.setdefault(pk, hx(ppe) if ppe else "none")
     o = sc.flags
     return sx(["cli", ["opts", o["diff"], o["print"], o["skip_imports"], o["skip_generated"], o["verbose"]],
                ["targets"] + tgs,
